@@ -58,6 +58,9 @@ def main():
         if os.environ.get("SHOWT"):
             for v in sorted(vcs, key=lambda v: -v.seconds)[:int(os.environ["SHOWT"])]:
                 print("   t=%.1fs %s %s %s %s" % (v.seconds, v.name, v.status, v.backend, v.tried if v.seconds > 3 else ""))
+        if os.environ.get("DUMPALL"):
+            for v in vcs:
+                open("/tmp/vcd_%s.smt2" % v.name.replace("/", "_").replace("[", "_").replace("]", ""), "w").write(v.smt2)
         for v in bad:
             print("   ", v.name, v.status, "line", v.line, "|", v.detail, "|", v.tried)
             if v.status == "sat" and v.model:
